@@ -218,19 +218,24 @@ PROPS["C04"] = {
     "assumptions": ["hash determines content", "uint64 nonces"],
 }
 PROPS["C05"] = {
-    "runs": [{"component": "pool", "labels": {10, 11, 12, 13, 14}, "n_quick": 1000, "n_thorough": 20000},
-             {"component": "pool", "variant": "evict", "labels": set(), "n_quick": 1200, "n_thorough": 20000}],
-    "anchors": POOL_ANCHORS, "rule": POOL_RULE + " The 'evict' variant enables eviction (thresholds 4-6 / 250-900 B, batch 1-7); there only the monitors "
-            "decide (Keys vs union of per-sender pools, CountTx/Len/NumBytes/CountSenders), so that a change of eviction order (C07) does not touch C05.",
+    # labels 30/32: the Coq-defined C05 predicate on the IMPLEMENTATION's views (30) and on the model's own views (32)
+    "runs": [{"component": "pool", "labels": {30, 32}, "n_quick": 1000, "n_thorough": 20000},
+             {"component": "pool", "variant": "evict", "labels": {30, 32}, "n_quick": 1200, "n_thorough": 20000}],
+    "anchors": POOL_ANCHORS, "rule": POOL_RULE + " Correspondence for C05: after every AddTx/RemoveTxByHash/Clear the implementation's views (Keys, per-sender "
+            "lists, the three counters) are fed back to the model, which evaluates the Coq-defined invariant predicate c05_viewsb on them (label 30) and on its own "
+            "views (label 32); exact equality of lists/eviction order is left to C04/C07, so that a change there does not touch C05. The 'evict' variant enables eviction "
+            "(thresholds 4-6 / 250-900 B, batch 1-7).",
     "exhaustive_claim": True,
     "explanation": "Props/C05.v: the invariant (both indexes the same duplicate-free set, three counters exact, no empty sender list) proved for every "
                    "history incl. eviction and Clear; correspondence on counters and views without eviction, monitors everywhere.",
     "assumptions": ["hash determines content", "sequential histories (C14 covers concurrency)"],
 }
 PROPS["C06"] = {
-    "runs": [{"component": "pool", "labels": {10, 11, 12, 14}, "n_quick": 1000, "n_thorough": 20000},
-             {"component": "pool", "variant": "evict", "labels": set(), "n_quick": 1200, "n_thorough": 20000}],
-    "anchors": POOL_ANCHORS, "rule": POOL_RULE + " The 'evict' variant enables eviction; there only the monitors decide (bounds after every AddTx).",
+    "runs": [{"component": "pool", "labels": {31}, "n_quick": 1000, "n_thorough": 20000},
+             {"component": "pool", "variant": "evict", "labels": {31}, "n_quick": 1200, "n_thorough": 20000}],
+    "anchors": POOL_ANCHORS, "rule": POOL_RULE + " Correspondence for C06: after every AddTx the implementation's views are judged by the Coq-defined predicate "
+            "c06_viewsb (per-sender count limit; with eviction: at most one transaction / sender / the last size in excess), label 31; the per-sender BYTE clause is "
+            "evaluated by the monitor (known finding F4). The 'evict' variant enables eviction.",
     "exhaustive_claim": True,
     "explanation": "Props/C06.v: per-sender count bound for all histories; byte bound partial (F4 refuted witness); pool-wide excess of at most the "
                    "transaction just added and eviction running until within thresholds (fuel and exhaustiveness proved).",
